@@ -31,7 +31,10 @@ RULE = ("source {raw, compressed_segmentation, jpeg} x {deep gzip, flat "
         "unsharded pairs), 1-3 channels, position-coded voxels. The full product "
         "(about 6800 conversions) runs in both tiers. "
         "Plus sequences of three convert_chunks() library calls in one "
-        "process (default options / one shared options dict). Non-trivial: "
+        "process (default options / one shared options dict; plain and two "
+        "sharded sources sharing their scale keys); re-conversions into a "
+        "destination already holding another dataset (flat/deep x gzip "
+        "before x gzip after x source order). Non-trivial: "
         "encoding, layout or data type differs between source and "
         "destination.")
 ASSUMPTIONS = [
@@ -314,7 +317,8 @@ def _eval_api_sequences(col):
     d = sandbox.fresh_dir("c13s")
     try:
         srcs = {}
-        for name, st in (("plain", FILE_STS[1]), ("sharded", SH1)):
+        for name, st in (("plain", FILE_STS[1]), ("sharded", SH1),
+                         ("sharded-b", SH1)):
             src = os.path.join(d, "src-" + name)
             os.makedirs(src)
             info = make_info("uint16", 1, RAW, st)
@@ -323,6 +327,9 @@ def _eval_api_sequences(col):
             pio = precomputed_io.get_IO_for_new_dataset(info, acc)
             for i, sc in enumerate(info["scales"]):
                 lv = level(info, i)
+                if name == "sharded-b":
+                    # same geometry and scale keys, other voxel values
+                    lv = (lv + 1000).astype(lv.dtype)
                 for c in pipeline.chunk_grid(sc["size"],
                                              sc["chunk_sizes"][0]):
                     pio.write_chunk(np.ascontiguousarray(
@@ -332,12 +339,27 @@ def _eval_api_sequences(col):
                 sandbox.run_captured_exit_handlers()
                 if st["kind"] == "sharded":
                     acc.close()
-            rd = pipeline.open_dataset(src)
-            srcs[name] = (src, [pipeline.read_scale(rd, i)
-                                for i in range(2)])
+            want = [level(info, i) if name != "sharded-b" else
+                    (level(info, i) + 1000).astype(level(info, i).dtype)
+                    for i in range(2)]
+            try:
+                rd = pipeline.open_dataset(src)
+                back = [pipeline.read_scale(rd, i) for i in range(2)]
+                if not all(np.array_equal(a, b) for a, b in zip(back, want)):
+                    raise AssertionError("voxels differ")
+            except Exception as exc:
+                col.ev(1, 1, "bad")
+                col.violation(
+                    "C13/api-sequence/source-not-readable-as-written/"
+                    + type(exc).__name__,
+                    {"kind": "api-sequence", "sequence": [name],
+                     "position": -1, "shared_options": False},
+                    "the written voxels", repr(exc)[:200])
+                return
+            srcs[name] = (src, want)
         n = 0
         for seq in itertools.permutations(
-                ["plain", "sharded", "plain", "sharded"], 3):
+                ["plain", "sharded", "sharded-b", "sharded"], 3):
             for shared in (False, True):
                 opts = {"flat": True, "gzip": False}
                 for k, name in enumerate(seq):
@@ -382,11 +404,86 @@ def _eval_api_sequences(col):
         sandbox.rm(d)
 
 
+def _write_src(src, info, shift):
+    from neuroglancer_scripts import accessor, precomputed_io
+    os.makedirs(src)
+    acc = accessor.get_accessor_for_url(src, {"flat": False, "gzip": True})
+    pio = precomputed_io.get_IO_for_new_dataset(info, acc)
+    want = []
+    for i, sc in enumerate(info["scales"]):
+        lv = (level(info, i) + shift).astype(info["data_type"])
+        want.append(lv)
+        for c in pipeline.chunk_grid(sc["size"], sc["chunk_sizes"][0]):
+            pio.write_chunk(np.ascontiguousarray(
+                lv[:, c[4]:c[5], c[2]:c[3], c[0]:c[1]]), sc["key"], c)
+    return want
+
+
+def _eval_reruns(col):
+    """a destination that already holds a conversion of another dataset of
+    the same geometry (same layout, either gzip setting) is converted into
+    again: it must end up equal to the new source, which stays unchanged"""
+    from neuroglancer_scripts.scripts import convert_chunks as cc
+    d = sandbox.fresh_dir("c13r")
+    try:
+        info = make_info("uint16", 2, RAW, FILE_STS[0])
+        srcs = []
+        for k, shift in enumerate((0, 777)):
+            src = os.path.join(d, "src%d" % k)
+            srcs.append((src, _write_src(src, info, shift)))
+        n = 0
+        for flat in (False, True):
+            for gz1 in (True, False):
+                for gz2 in (True, False):
+                    for order in ((0, 1), (1, 0), (0, 0)):
+                        n += 1
+                        dst = os.path.join(d, "dst%d" % n)
+                        os.makedirs(dst)
+                        case = {"kind": "rerun", "flat": flat,
+                                "gzip_first": gz1, "gzip_second": gz2,
+                                "sources": list(order)}
+                        before = tree_hash(srcs[order[1]][0])
+                        try:
+                            with sandbox.quiet(), np.errstate(all="ignore"):
+                                cc.convert_chunks(
+                                    srcs[order[0]][0], dst, copy_info=True,
+                                    options={"flat": flat, "gzip": gz1})
+                                cc.convert_chunks(
+                                    srcs[order[1]][0], dst, copy_info=False,
+                                    options={"flat": flat, "gzip": gz2})
+                            rd = pipeline.open_dataset(
+                                dst, {"flat": flat, "gzip": gz2})
+                            got = [pipeline.read_scale(rd, i)
+                                   for i in range(2)]
+                            if not all(np.array_equal(a, b) for a, b in
+                                       zip(got, srcs[order[1]][1])):
+                                raise AssertionError(
+                                    "destination differs from the source "
+                                    "converted last")
+                            if tree_hash(srcs[order[1]][0]) != before:
+                                raise AssertionError("source modified")
+                            col.ev(1, 1, "ok")
+                        except Exception as exc:
+                            col.ev(1, 1, "bad")
+                            col.violation(
+                                "C13/rerun/destination-not-equal-to-the-"
+                                "last-source/" + type(exc).__name__, case,
+                                "every chunk of the second conversion",
+                                repr(exc)[:200])
+                        finally:
+                            sandbox.rm(dst)
+        col.sample({"kind": "rerun", "flat": False, "gzip_first": False,
+                    "gzip_second": True, "sources": [0, 1]})
+    finally:
+        sandbox.rm(d)
+
+
 def units(tier):
     cs = cases(tier)
     per = 20
     u = [{"cases": cs[i:i + per]} for i in range(0, len(cs), per)]
     u.append({"kind": "api-sequences"})
+    u.append({"kind": "reruns"})
     return u
 
 
@@ -399,6 +496,9 @@ def run_unit(u):
     col = Collector()
     if u.get("kind") == "api-sequences":
         _eval_api_sequences(col)
+        return col.result()
+    if u.get("kind") == "reruns":
+        _eval_reruns(col)
         return col.result()
     for case in u["cases"]:
         _eval(col, case)
@@ -414,6 +514,11 @@ def replay(case):
                 if r["case"].get("sequence") == case["sequence"]
                 and r["case"].get("shared_options")
                 == case["shared_options"]]
+    if case.get("kind") == "rerun":
+        _eval_reruns(col)
+        return [r for r in col.records() if all(
+            r["case"].get(k) == case[k] for k in (
+                "flat", "gzip_first", "gzip_second", "sources"))]
     c = dict(case)
     c.pop("scale", None)
     _eval(col, c)
